@@ -108,7 +108,7 @@ Proof.
     repeat split; try reflexivity.
     + rewrite (write_field_kind env t w Hw). unfold decl_ptype. rewrite Hm, He. reflexivity.
     + rewrite Hr. reflexivity.
-    + rewrite Hr. cbn [negb]. rewrite andb_true_r. reflexivity.
+    + rewrite Hr. cbn [negb]. rewrite !andb_true_r. reflexivity.
   - apply obind_ok in Hw. destruct Hw as (w0 & Hw0 & Hw). inversion Hw. subst w. cbn [W.wrap_array W.fw_kind].
     repeat split; try reflexivity.
     + rewrite (write_field_kind env t w0 Hw0). reflexivity.
